@@ -65,7 +65,8 @@ theorem requestEmits_req (h : Hub) (c : Nat) (v : Verb) : ∀ e ∈ requestEmits
   split at he
   · simp only [List.mem_replicate] at he; simp [he.2, mkEmit]
   · split at he
-    · simp only [List.mem_singleton] at he; simp [he, mkEmit]
+    · simp only [List.mem_append, List.mem_replicate, List.mem_singleton] at he
+      rcases he with ⟨_, rfl⟩ | rfl <;> simp [mkEmit]
     · simp at he
 
 theorem responseTasks_mem (h : Hub) (w : Nat) (rid : Rid) (st : St) :
@@ -107,7 +108,7 @@ theorem bounds_step (h : Hub) (op : Op) (hb : Bounds h) : Bounds (step h op) := 
           rcases htm with htm | rfl
           · have := ht t htm; simp [*]; omega
           · simp [newTask, *]
-        · have := ht t htm; simp [*]; omega
+        · have := ht t htm; simp [*]; split <;> omega
       · intro e he
         simp only [List.mem_append] at he
         rcases he with he | he
@@ -586,7 +587,8 @@ theorem requestEmits_src (h : Hub) (c : Nat) (v : Verb) : ∀ e ∈ requestEmits
   split at he
   · simp only [List.mem_replicate] at he; simp [he.2, mkEmit]
   · split at he
-    · simp only [List.mem_singleton] at he; simp [he, mkEmit]
+    · simp only [List.mem_append, List.mem_replicate, List.mem_singleton] at he
+      rcases he with ⟨_, rfl⟩ | rfl <;> simp [mkEmit]
     · simp at he
 
 theorem responseEmits_src (h : Hub) (rid : Rid) (st : St) : ∀ e ∈ responseEmits h rid st, e.src = none := by
@@ -643,7 +645,7 @@ theorem acc_step (h : Hub) (op : Op) (hb : Bounds h) (ha : Acc h) : Acc (step h 
           rcases he with ⟨r, _, rfl⟩ | he
           · simp [*]
           · have := h3 e he; simp [*]; omega
-        · have := h3 e he; simp [*]
+        · have := h3 e he; simp [*]; split <;> omega
       · intro e he t ht hid
         simp only at he ht
         split at he
@@ -869,6 +871,16 @@ theorem verdict_worker_ok (excl : Bool) (t : Task) (p : Bool) (hv : t.verb = .wo
 
 /-- the verdict rule of `LoadStateTask::on_finish` -/
 theorem verdict_load_ok (excl : Bool) (t : Task) (p : Bool) (k : Nat) (hv : t.verb = .loadState k)
+    (h : St.ok ∈ verdicts excl t p) : t.errors = 0 := by
+  unfold verdicts at h
+  rw [hv] at h
+  simp only [List.mem_singleton] at h
+  by_cases h0 : t.errors = 0
+  · exact h0
+  · simp [h0] at h
+
+/-- the verdict rule of `LoadStaticConfigTask::on_finish` -/
+theorem verdict_reload_ok (excl : Bool) (t : Task) (p : Bool) (k : Nat) (hv : t.verb = .reload k)
     (h : St.ok ∈ verdicts excl t p) : t.errors = 0 := by
   unfold verdicts at h
   rw [hv] at h
@@ -1294,7 +1306,7 @@ theorem ok_all_acked_core (fwd excl ret : Bool) (T n : Nat) (ops : List Op)
     (hnd : ret = true ∨ NoDuplicateAnswers ops)
     (e : Emit) (he : e ∈ (run (Hub.init fwd excl ret T n) ops).log)
     (t : Task) (to : Bool) (hsrc : e.src = some (t, to)) (hk : e.kind = .ok)
-    (hverb : t.verb = .worker ∨ ∃ k, t.verb = .loadState k) (hpath : fwd = true ∨ to = false) :
+    (hverb : t.verb.judgesWorkers = true) (hpath : fwd = true ∨ to = false) :
     AllAcked t ∧ ∀ g ∈ t.got, g.2.2 ≠ .failure := by
   have hi := inv_run _ ops (inv_init fwd excl ret T n)
   have hcfg := run_cfg (Hub.init fwd excl ret T n) ops
@@ -1308,17 +1320,22 @@ theorem ok_all_acked_core (fwd excl ret : Bool) (T n : Nat) (ops : List Op)
   rw [hk, hfwd] at hkind
   -- the verdict rules: no error counted, and the verdict was not a deadline verdict
   have hboth : t.errors = 0 ∧ to = false := by
-    rcases hverb with hv | ⟨k, hv⟩
+    -- LoadState / ReloadConfiguration are gathered without a deadline: only released once finished
+    have nodl : t.verb.hasDeadline = false → to = false := by
+      intro hd
+      cases hto' : to with
+      | false => rfl
+      | true => have := hlt e he t to hsrc hto'; rw [hd] at this; cases this
+    cases hv : t.verb <;> simp [hv, Verb.judgesWorkers] at hverb
     · obtain ⟨herr, hpassed⟩ := verdict_worker_ok _ t _ hv hkind
       refine ⟨herr, ?_⟩
       rcases hpath with hp | hp
       · subst hp; simpa using hpassed
       · exact hp
-    · refine ⟨verdict_load_ok _ t _ k hv hkind, ?_⟩
-      -- LoadState is gathered without a deadline: it is only released once finished
-      cases hto' : to with
-      | false => rfl
-      | true => have := hlt e he t to hsrc hto'; simp [hv, Verb.hasDeadline] at this
+    · rename_i k
+      exact ⟨verdict_load_ok _ t _ k hv hkind, nodl (by simp [hv, Verb.hasDeadline])⟩
+    · rename_i k
+      exact ⟨verdict_reload_ok _ t _ k hv hkind, nodl (by simp [hv, Verb.hasDeadline])⟩
   obtain ⟨herr, hto'⟩ := hboth
   have hfin : hasFinished t = true := by
     have h0 : timedOut t = false := by rw [← hto, hto']
@@ -1339,16 +1356,17 @@ theorem ok_all_acked_core (fwd excl ret : Bool) (T n : Nat) (ops : List Op)
 theorem no_failure_core (fwd excl ret : Bool) (T n : Nat) (ops : List Op)
     (e : Emit) (he : e ∈ (run (Hub.init fwd excl ret T n) ops).log)
     (t : Task) (to : Bool) (hsrc : e.src = some (t, to)) (hk : e.kind = .ok)
-    (hverb : t.verb = .worker ∨ ∃ k, t.verb = .loadState k) :
+    (hverb : t.verb.judgesWorkers = true) :
     ∀ g ∈ t.got, g.2.2 ≠ .failure := by
   have hi := inv_run _ ops (inv_init fwd excl ret T n)
   generalize run (Hub.init fwd excl ret T n) ops = s at *
   obtain ⟨hti, _, _, _, hkind⟩ := hi.acc.log e he t to hsrc
   rw [hk] at hkind
   have herr : t.errors = 0 := by
-    rcases hverb with hv | ⟨k, hv⟩
+    cases hv : t.verb <;> simp [hv, Verb.judgesWorkers] at hverb
     · exact (verdict_worker_ok _ t _ hv hkind).1
-    · exact verdict_load_ok _ t _ k hv hkind
+    · rename_i k; exact verdict_load_ok _ t _ k hv hkind
+    · rename_i k; exact verdict_reload_ok _ t _ k hv hkind
   have h0 : failCount t.got = 0 := by rw [← hti.errors]; exact herr
   simp only [failCount, List.countP_eq_zero] at h0
   intro g hg hgf; exact h0 g hg (by simp [hgf])
@@ -1379,9 +1397,10 @@ theorem no_cross_talk_core (fwd excl ret : Bool) (T n : Nat) (pre post : List Op
   exact logOwned_run (step s1 (.request c v)) post (bounds_step s1 _ hi1.bounds) s1.nextReq c v s1.now hr2
     (owned_request s1 c v hi1.bounds) (logOwned_request s1 c v hi1.bounds)
 
-theorem classify_answered (cv : ClientVerb) (h1 : cv ≠ .softStop) (h2 : ∀ k, cv ≠ .load k) :
+theorem classify_answered (cv : ClientVerb) (h1 : cv ≠ .softStop) (h2 : ∀ k, cv ≠ .load k)
+    (h3 : ∀ k, cv ≠ .reload k) (h4 : cv.crashesMain = false) :
     (cv.classify true).hasDeadline = true ∨ (cv.classify true).immediate.isSome = true := by
-  cases cv <;> simp_all [ClientVerb.classify, Verb.hasDeadline, Verb.immediate]
+  cases cv <;> simp_all [ClientVerb.classify, ClientVerb.crashesMain, Verb.hasDeadline, Verb.immediate]
 
 -- ------------------------------------------------------- load_state batching, distinct ids ----
 
@@ -1415,8 +1434,9 @@ theorem loadSubs_eq (bs : List Nat) : loadSubs bs = (Verb.loadState bs.sum).subs
 
 theorem subs_nodup (v : Verb) : v.subs.Nodup := by
   cases v <;> simp [Verb.subs]
-  rename_i k
-  exact nodup_map_inj _ (by intro a b h; omega) _ List.nodup_range
+  · rename_i k
+    exact nodup_map_inj _ (by intro a b h; omega) _ List.nodup_range
+  · exact List.nodup_range
 
 -- ---- worker ids are distinct; so are the ids of a scatter ----
 
@@ -1717,8 +1737,8 @@ theorem reqClient_run (a b c : Bool) (T n : Nat) (ops : List Op) : ReqClient (ru
   | nil => intro h _ hr; exact hr
   | cons o os ih => intro h hb hr; rw [run_cons]; exact ih _ (bounds_step h o hb) (reqClient_step h o hb hr)
 
-theorem classify_answers (cv : ClientVerb) : (cv.classify true).answers = true := by
-  cases cv <;> simp [ClientVerb.classify, Verb.answers, Verb.gathers, Verb.immediate]
+theorem classify_answers (cv : ClientVerb) (h : cv.crashesMain = false) : (cv.classify true).answers = true := by
+  cases cv <;> simp_all [ClientVerb.classify, ClientVerb.crashesMain, Verb.answers, Verb.gathers, Verb.immediate]
 
 /-- every pending task of the request is releasable: past its deadline, or gathered
     without a deadline and finished -/
@@ -1744,9 +1764,9 @@ theorem gathering_verb_cases (fwd excl ret : Bool) (T n : Nat) (ops : List Op)
     (e : Emit) (he : e ∈ (run (Hub.init fwd excl ret T n) ops).log)
     (t : Task) (to : Bool) (hsrc : e.src = some (t, to))
     (hverb : ¬ (t.verb = .query ∨ t.verb = .softStop ∨ t.verb = .hardStop)) :
-    t.verb = .worker ∨ ∃ k, t.verb = .loadState k := by
+    t.verb.judgesWorkers = true := by
   have hk := (verdict_of_log fwd excl ret T n ops e he t to hsrc).1
-  cases hv : t.verb <;> simp_all [verdicts]
+  cases hv : t.verb <;> simp_all [verdicts, Verb.judgesWorkers]
 
 theorem verdict_ignores_core (ret : Bool) (T n : Nat) (ops : List Op)
     (e : Emit) (he : e ∈ (run (Hub.init true true ret T n) ops).log)
